@@ -422,6 +422,16 @@ def fixed_corpus():
     out += [T('compact', T('u', n=w)) for w in W]
     out += [T('bitvec', T('u', n=w), T(o)) for w in (8, 16, 32, 64) for o in ('lsb0', 'msb0')]
     out += [T('range', u8), T('rangei', u8), T('heap', u8), T('slice', u8), T('vec', u8)]   # the C05/C16 confusables
+
+    def nest(k, depth, leaf):
+        t = leaf
+        for _ in range(depth):
+            t = T(k, t)
+        return t
+    # deep nesting (registration recurses as deep as the type is nested), with types first met after the deep member
+    out += [nest('vec', 70, u8), T('tup', nest('opt', 30, T('tup', T('u', n=16), T('bool'))), T('i', n=64)),
+            T('tup', nest('box', 40, nest('vec', 33, T('i', n=8))), s), T('arr', u8, n=255), T('arr', u8, n=256), T('arr', u8, n=65535),
+            T('arr', u8, n=65536), T('arr', T('bool'), n=65537), T('arr', u8, n=16777216)]
     if NO_BITVEC:
         out = [t for t in out if not any(s.kind in ('bitvec', 'lsb0', 'msb0') for s in t.subterms())]
     return out
